@@ -81,8 +81,10 @@ DoLiveClose ==
     /\ LiveClose(Flat([i \in 1..Len(sent) |-> Encode(ModelReply(sent[i]))]))
     /\ H([op |-> "LiveClose"])
 
-Next == DoPlan \/ DoOpen \/ DoDeliver \/ DoDecode \/ DoEnd \/ DoLiveSend \/ DoLiveClose
+Next == DoPlan \/ DoOpen \/ DoDeliver \/ DoDecode \/ DoEnd               \* the read loop driven in process (Live = FALSE)
+NextLive == DoPlan \/ DoOpen \/ DoLiveSend \/ DoLiveClose                 \* a client socket of a live server (Live = TRUE)
 Spec == Init /\ [][Next]_vars
+SpecLive == Init /\ [][NextLive]_vars
 
 \* every behaviour that starts must be able to finish: a connection is never stuck
 NoStuck == (st \in {"reading", "decoding", "live"}) => ENABLED (DoDeliver \/ DoDecode \/ DoEnd \/ DoLiveSend \/ DoLiveClose)
